@@ -167,7 +167,9 @@ func (ss *sessionStruct) Unmarshal(b []byte) error {
 	}
 	originalTimestamp := binary.BigEndian.Uint32(b[2:])
 	currentTimestamp := uint32(time.Now().Unix() / 60)
-	if !mathext.WithinRange(currentTimestamp, originalTimestamp, 1) {
+	// Compare in 64 bits: originalTimestamp-1 and originalTimestamp+1 wrap around
+	// in 32 bits, which made the timestamps 0 and 0xffffffff always acceptable.
+	if !mathext.WithinRange(int64(currentTimestamp), int64(originalTimestamp), 1) {
 		return fmt.Errorf("invalid timestamp %d", originalTimestamp*60)
 	}
 	payloadLen := binary.BigEndian.Uint16(b[15:])
@@ -257,7 +259,9 @@ func (das *dataAckStruct) Unmarshal(b []byte) error {
 	}
 	originalTimestamp := binary.BigEndian.Uint32(b[2:])
 	currentTimestamp := uint32(time.Now().Unix() / 60)
-	if !mathext.WithinRange(currentTimestamp, originalTimestamp, 1) {
+	// Compare in 64 bits: originalTimestamp-1 and originalTimestamp+1 wrap around
+	// in 32 bits, which made the timestamps 0 and 0xffffffff always acceptable.
+	if !mathext.WithinRange(int64(currentTimestamp), int64(originalTimestamp), 1) {
 		return fmt.Errorf("invalid timestamp %d", originalTimestamp*60)
 	}
 
